@@ -17,7 +17,10 @@ import (
 	"time"
 )
 
-func init() { commands["pipe"] = pipeRun }
+func init() {
+	commands["pipe"] = pipeRun
+	commands["pipe-pacseq"] = pacSeqRun
+}
 
 type pipeHop struct {
 	K string `json:"k"`
@@ -53,11 +56,14 @@ type pipeCase struct {
 	} `json:"out"`
 	Alts []int `json:"alts"`
 	idx  int
+	// pathPrefix is put in front of the request path (PAC decisions that depend on the URL)
+	pathPrefix string
 }
 
 var pipeHosts = map[string]string{
 	"origin": "origin.test", "denied": "denied.test", "denyExcl": "excl.denied.test",
 	"direct": "direct.test", "directExcl": "excl.direct.test",
+	"other":  "other.test",
 	"lhName": "localhost", "lhUpper": "LOCALHOST", "lo4": "127.0.0.1", "lo4b": "127.9.9.9", "lo6": "[::1]",
 	"unspec4": "0.0.0.0", "unspec6": "[::]", "unspec6b": "[::0]", "unspec6c": "[0:0:0:0:0:0:0:0]",
 	"mapped4": "[::ffff:127.0.0.1]", "mapped4hex": "[::ffff:7f00:1]",
@@ -610,7 +616,7 @@ func (pe *pipeEnv) runCase(c *pipeCase) map[string]any {
 		}
 		return sb.String()
 	}
-	path := fmt.Sprintf("/p%d?x=%d", c.idx, c.idx)
+	path := c.pathPrefix + fmt.Sprintf("/p%d?x=%d", c.idx, c.idx)
 	method := "GET"
 	var final *wireMsg
 	switch c.Req.Kind {
@@ -845,4 +851,95 @@ func expectedPeer(c *pipeCase) string {
 
 func tlsClientCfg(ca *harnessCA, host string) *tls.Config {
 	return &tls.Config{RootCAs: ca.pool, ServerName: strings.Trim(host, "[]")}
+}
+
+// ---------------------------------------------------------------- PAC decisions over a history (PacRoute.tla)
+
+type pacSeqCase struct {
+	Table map[string]map[string]string `json:"table"`
+	Reqs  []struct {
+		Kind string  `json:"kind"`
+		Host string  `json:"host"`
+		Path string  `json:"path"`
+		Says string  `json:"says"`
+		Hop  pipeHop `json:"hop"`
+	} `json:"reqs"`
+}
+
+func pacSeqScript(t map[string]map[string]string) string {
+	out := map[string]string{"DIRECT": "DIRECT", "PROXY_A": "PROXY " + addrA, "HTTPS_B": "HTTPS " + addrB, "SOCKS5_C": "SOCKS5 " + addrC}
+	var sb strings.Builder
+	sb.WriteString("var T = {};\n")
+	for h, row := range t {
+		for p, o := range row {
+			fmt.Fprintf(&sb, "T[%q] = %q;\n", h+"|"+p, out[o])
+		}
+	}
+	sb.WriteString(`function FindProxyForURL(url, host) {
+  var p = "root";
+  if (shExpMatch(url, "*/pay/*")) { p = "pay"; } else if (shExpMatch(url, "*/static/*")) { p = "static"; }
+  var h = (host == "other.test") ? "other" : "origin";
+  return T[h + "|" + p];
+}`)
+	return sb.String()
+}
+
+// pacSeqRun plays each history against one proxy instance: every request must leave through the hop the script
+// names for its own URL, whatever the instance did for earlier requests.
+func pacSeqRun(e *env) {
+	var cases []pacSeqCase
+	e.eachCase(func(raw json.RawMessage) {
+		var c pacSeqCase
+		if err := json.Unmarshal(raw, &c); err != nil {
+			fatal("bad case: %v", err)
+		}
+		cases = append(cases, c)
+	})
+	sem := make(chan struct{}, e.par)
+	var wg sync.WaitGroup
+	for ci := range cases {
+		ci := ci
+		wg.Add(1)
+		sem <- struct{}{}
+		go func() {
+			defer wg.Done()
+			defer func() { <-sem }()
+			c := &cases[ci]
+			fc := fwdCfg{Name: "fwd", Localhost: "allow", PAC: pacSeqScript(c.Table)}
+			for _, r := range c.Reqs {
+				if r.Kind == "MITMGET" {
+					fc.MITM = true
+				}
+			}
+			pe, err := newPipeEnv(fc, "")
+			if err != nil {
+				fatal("start proxy: %v", err)
+			}
+			defer pe.close()
+			res := map[string]any{"ok": true, "idx": ci, "table": c.Table, "reqs": c.Reqs, "nt": true}
+			var via []string
+			for k, r := range c.Reqs {
+				pc := &pipeCase{Gen: "pacseq", idx: ci*10 + k}
+				pc.Cfg.Tf, pc.Cfg.Lh, pc.Cfg.Ct = "off", "allow", "none"
+				pc.Cfg.Up.T, pc.Cfg.Up.V = "pac", r.Says
+				pc.Req.Kind, pc.Req.Host, pc.Req.Cred, pc.Req.Via, pc.Req.Pos = r.Kind, r.Host, "none", "none", "first"
+				pc.Out.O, pc.Out.Hop, pc.Out.Dial = "forward", r.Hop, "self"
+				switch r.Path {
+				case "pay":
+					pc.pathPrefix = "/pay"
+				case "static":
+					pc.pathPrefix = "/static"
+				}
+				one := pe.runCase(pc)
+				via = append(via, fmt.Sprintf("%s %s%s -> %v", r.Kind, r.Host, pc.pathPrefix, one["ok"]))
+				if one["ok"] != true {
+					res["ok"], res["why"], res["at"], res["obs"] = false, one["why"], k, one["obs"]
+					break
+				}
+			}
+			res["steps"] = via
+			e.emit(res)
+		}()
+	}
+	wg.Wait()
 }
